@@ -323,6 +323,7 @@ impl Shared {
                         if cb != Cb::Accept {
                             class = "valid-key:reject->SIGNATURE".to_string();
                             v.push(Viol::new("C04:signature-despite-reject", "a signature was returned although the callback reported failure"));
+                            v.push(Viol::new(if last { "C05:signature-without-wipe:callback-failed" } else { "C05:signature-without-advance:callback-failed" }, format!("a signature was released although the key update failed: the caller still holds the key of counter {} (remaining lifetime unchanged{})", info.counter, if last { ", not wiped" } else { "" })));
                         } else {
                             class = if last { "valid-key:last-leaf:ok".to_string() } else { "valid-key:ok".to_string() };
                         }
